@@ -91,7 +91,14 @@ def _hook(world, name, outcome):
             return True
         world.hook_calls.append((CLOCK.now, watcher.name, hook_name, outcome, dict(kw)))
         if outcome == 'raise':
-            raise RuntimeError('hook %s raises' % hook_name)
+            # exceptions come in several shapes: with a message, without any argument (a bare `raise X`, a failed plain
+            # assert), with a non-string argument; alternate between them (deterministically, by the number of calls so far)
+            k = len(world.hook_calls) % 3
+            if k == 0:
+                raise RuntimeError('hook %s raises' % hook_name)
+            if k == 1:
+                raise AssertionError()
+            raise KeyError(('hook', hook_name))
         return outcome
     return hook
 
